@@ -2710,7 +2710,9 @@ impl Lexer<'_> {
         // of lexing possibly escaped text in a string expression
         let mut lit_start_idx = self.buffer.next_string_literal_start();
         let mut lit_end_idx = lit_start_idx;
-        let mut last_lit_end_byte_offset = self.cur_byte_offset();
+        // The dispatcher may have already consumed a leading char of this token,
+        // so the first literal section starts at the token start
+        let mut last_lit_end_byte_offset = self.cur_token_byte_offset;
 
         while let Some(c) = self.cursor.peek() {
             match c {
@@ -3218,7 +3220,9 @@ impl Lexer<'_> {
         // of lexing possibly escaped text in a string expression
         let mut lit_start_idx = self.buffer.next_string_literal_start();
         let mut lit_end_idx = lit_start_idx;
-        let mut last_lit_end_byte_offset = self.cur_byte_offset();
+        // The dispatcher may have already consumed a leading char of this token,
+        // so the first literal section starts at the token start
+        let mut last_lit_end_byte_offset = self.cur_token_byte_offset;
 
         // Now lex the string
         while let Some(c) = self.cursor.peek() {
